@@ -17,7 +17,8 @@ func init() { register(&Check{ID: "C06", Run: runC06, ShardDepth: 3}) }
 
 var (
 	c06RespCC = []string{"", "max-age=60", "no-store", "no-store, max-age=60", "public", "must-understand, max-age=60", "private", "private, max-age=60",
-		`max-age=60, x-root="C:\\", no-store`, `x-q="a\", max-age=60", no-store, max-age=60`}
+		`max-age=60, x-root="C:\\", no-store`, `x-q="a\", max-age=60", no-store, max-age=60`,
+		"x1, x2, x3, x4, x5, x6, x7, x8, x9, x10, x11, x12, x13, x14, x15, x16, no-store, max-age=60", "max-age=60, x-rep, x-rep=1, x-rep, no-store"}
 	c06Reqs   = []string{"GET", "GET+no-store", "GET+Range", "GET+Range(items)", "GET+Range(Bytes)", "GET+If-None-Match", "GET+If-Modified-Since", "HEAD", "POST", "GET(empty Method)+Range"}
 )
 
